@@ -50,7 +50,11 @@ pub enum Ins {
     Expr { ty: u8, seed: u32 },
     Print { ty: u8, seed: u32 },
     /// use of `ans` / `_` after an expression
-    Ans { underscore: bool },
+    Ans {
+        underscore: bool,
+        #[serde(default)]
+        kind: u8,
+    },
     /// use a Scalar -> Scalar function as a value: `let v = sum(map(f, [a, b]))`
     MapFn { f: u16, seed: u32 },
 }
@@ -68,7 +72,7 @@ pub fn ins_strategy() -> impl Strategy<Value = Ins> {
         2 => any::<u16>().prop_map(|module| Ins::Use { module }),
         4 => (0u8..5, any::<u32>()).prop_map(|(ty, seed)| Ins::Expr { ty, seed }),
         3 => (0u8..5, any::<u32>()).prop_map(|(ty, seed)| Ins::Print { ty, seed }),
-        1 => any::<bool>().prop_map(|underscore| Ins::Ans { underscore }),
+        3 => (any::<bool>(), 0u8..6).prop_map(|(underscore, kind)| Ins::Ans { underscore, kind }),
         1 => (any::<u16>(), any::<u32>()).prop_map(|(f, seed)| Ins::MapFn { f, seed }),
     ]
 }
@@ -378,13 +382,47 @@ pub fn render_ins(ins: &Ins, env: &mut Env) -> String {
             env.ans = None;
             format!("let {name} = sum(map({fname}, [{a}, {b}]))")
         }
-        Ins::Ans { underscore } => {
-            if env.ans.is_some() {
+        Ins::Ans { underscore, kind } => {
+            if let Some(ty) = env.ans {
                 let a = if *underscore { "_" } else { "ans" };
-                format!("{a} * 2")
+                // uses that expose the unit the previous result is held in (the session keeps
+                // the unsimplified value, whatever was displayed)
+                match kind % 6 {
+                    0 => format!("{a} * 2"),
+                    1 => {
+                        env.ans = None;
+                        let name = env.fresh("v");
+                        env.vars.push((name.clone(), ty));
+                        format!("let {name} = {a}")
+                    }
+                    2 => {
+                        env.ans = Some(Ty::Scalar);
+                        format!("value_of({a})")
+                    }
+                    3 => {
+                        env.ans = None;
+                        format!("{a} * 3 cm")
+                    }
+                    4 => {
+                        env.ans = None;
+                        format!("print({a})")
+                    }
+                    _ => {
+                        env.ans = None;
+                        format!("\"{{{a}}} / {{unit_of({a})}}\"")
+                    }
+                }
             } else {
-                env.ans = Some(Ty::Scalar);
-                "7 + 1".to_string()
+                // an expression whose displayed (simplified) form differs from the value held
+                let (a, b, c) = (1 + kind % 5, 2 + kind % 3, 1 + kind % 4);
+                let (text, ty) = match kind % 4 {
+                    0 => (format!("{a} km / {b} m"), Ty::Scalar),
+                    1 => (format!("{a} m * {b} cm / ({c} mm)"), Ty::Length),
+                    2 => (format!("{a} hour * {b} km / ({c} min)"), Ty::Length),
+                    _ => (format!("{a} inch * {b} s / ({c} ms)"), Ty::Length),
+                };
+                env.ans = Some(ty);
+                text
             }
         }
     };
